@@ -28,7 +28,7 @@ def stLine (s : State) : String :=
   let known := ((s.ag.recs.filter (fun r => r.id != 0)).toArray.qsort (fun a b => a.id < b.id)).toList.map (fun r => s!"{r.id}:{r.sec}")
   let fl := sortNat (s.ag.flights.map (·.rid))
   let alive := String.join (s.ag.live.map (fun l => b01 l.alive))
-  s!"st q={showList q} known={showList known} fl={showList fl} alive={alive} oow={s.ag.oow} reqs={showList (sortNat (s.reqs.map (·.rid)))} resps={showList (sortNat (s.resps.map (·.rid)))}"
+  s!"st q={showList q} known={showList known} fl={showList fl} alive={alive} mem={s.ag.memSize - s.ag.ballast} oow={s.ag.oow} reqs={showList (sortNat (s.reqs.map (·.rid)))} resps={showList (sortNat (s.resps.map (·.rid)))}"
 
 def aggStr (g : Agg) : String :=
   if !g.up then "down" else
@@ -60,7 +60,8 @@ def parseOp : List String → Option Op
   | ["down", r] => r.toNat?.map .down
   | ["up", r, now] => do some (.up (← r.toNat?) (← now.toNat?))
   | ["agentrestart", c] => (parseBool? c).map .agentRestart
-  | ["mem", b] => (parseBool? b).map .mem
+  | ["ballast", k] => k.toNat?.map .ballast
+  | ["diskok", b] => (parseBool? b).map .diskOk
   | ["bad", r] => r.toNat?.map .bad
   | _ => none
 
